@@ -1,6 +1,8 @@
 package checks
 
 import (
+	"crypto/tls"
+	"crypto/x509"
 	"errors"
 	"fmt"
 	"math"
@@ -225,6 +227,7 @@ func witnessScript(t *sim.Tape, n int) ([][]byte, []resp.Value) {
 func runC07(t *testing.T, tape *sim.Tape, tier string) *Outcome {
 	o := &Outcome{}
 	cl := newCluster(tape, o)
+	var mapOrder strings.Builder
 	storeKind := tape.Draw(3, "store")
 	useExample := storeKind == 0
 	switch storeKind {
@@ -245,6 +248,12 @@ func runC07(t *testing.T, tape *sim.Tape, tier string) *Outcome {
 		rs.Fault = func(conn *redis.Conn, method, key string) (*redis.Message, error, bool) {
 			if !strings.HasPrefix(key, "o") {
 				return nil, nil, false
+			}
+			// MSET/HMSET/MSETNX call the handler in Go map order and the fault plan is indexed by call count: which
+			// key meets which fault is not a function of the seed. The order is the run's witness (runs are compared
+			// and replayed under equal witnesses only).
+			if method == "Set" || method == "HSet" || method == "Get" {
+				fmt.Fprintf(&mapOrder, "%s:%s;", method, key)
 			}
 			k := plan[n%len(plan)]
 			n++
@@ -269,6 +278,22 @@ func runC07(t *testing.T, tape *sim.Tape, tier string) *Outcome {
 		o.stat("runs_misbehaving_handler", 1)
 	}
 	cl.Sticky = tape.Draw(4, "sticky")
+	// a quarter of the runs: the application supplies its own TLS configuration (client certificates optional or not
+	// requested) and offenders may come in through the TLS port, with or without a certificate
+	tlsOffenders := tape.Draw(4, "tlsoffenders") == 3
+	pki := wl.GetPKI()
+	if tlsOffenders {
+		pool := x509.NewCertPool()
+		pool.AddCert(pki.CA.Cert)
+		cl.Srv.SetTLSPort(tlsPort)
+		cl.Srv.SetTLSConfig(&tls.Config{
+			Certificates: []tls.Certificate{pki.Server.TLSCert()},
+			ClientCAs:    pool,
+			ClientAuth:   []tls.ClientAuthType{tls.NoClientCert, tls.RequestClientCert, tls.VerifyClientCertIfGiven}[tape.Draw(3, "clientauth")],
+			MinVersion:   tls.VersionTLS12,
+		})
+		o.stat("runs_with_application_tls_config", 1)
+	}
 	if err := cl.startServer(); err != nil {
 		o.violate("harness:start", "Start failed: %v", err)
 		cl.finish()
@@ -291,6 +316,14 @@ func runC07(t *testing.T, tape *sim.Tape, tier string) *Outcome {
 			b, d := genOffenderItem(tape, g, fmt.Sprintf("o%d:", j), i, o)
 			items = append(items, b)
 			ds = append(ds, clipS(d, 140))
+		}
+		if tlsOffenders && tape.Draw(2, "viatls") == 1 {
+			id := []*wl.Ident{nil, pki.Right}[tape.Draw(2, "offcert")]
+			tc := cl.addTLSClient(fmt.Sprintf("toff%d", j), addrOf(tlsPort), pki.ClientConfig(id), items)
+			tc.Chunk = tape.Draw(3, "chunkmode")
+			o.stat("offenders_on_tls_port", 1)
+			descs = append(descs, append([]string{fmt.Sprintf("(TLS, certificate: %t)", id != nil)}, ds...))
+			continue
 		}
 		c := cl.addClient(fmt.Sprintf("off%d", j), addr, items)
 		c.Lockstep = tape.Draw(2, "lockstep") == 0
@@ -320,7 +353,7 @@ func runC07(t *testing.T, tape *sim.Tape, tier string) *Outcome {
 			o.violate("c07:witness-wrong-reply", "witness request %d %q got %s, expected %s; offenders sent %v", i, wItems[i], v, wWant[i], descs)
 		}
 	}
-	budget := 4000 + 40*len(w.stream)
+	budget := 4000 + 40*len(w.stream) + 4000*len(cl.TLSClients)
 	for _, c := range offenders {
 		budget += 40 * len(c.stream)
 	}
@@ -356,6 +389,7 @@ func runC07(t *testing.T, tape *sim.Tape, tier string) *Outcome {
 	}
 	o.stat("offender_connections_closed_by_server", closed)
 	cl.finish()
+	o.Witness = mapOrder.String()
 	o.Sched = fmt.Sprintf("ex%t n%d st%d|%d|%x", useExample, noff, cl.Sticky, o.Steps, hash64(strings.Join(o.Log, "\n")))
 	o.Nontrivial = true
 	o.Sample = map[string]any{"store": []string{"bundled example store", "reference store", "reference store misbehaving (nil/error/odd replies) for the offenders' keys"}[storeKind], "offenders": descs, "witness_requests": len(wItems), "steps": o.Steps}
@@ -366,7 +400,7 @@ func init() {
 	register(&Check{
 		ID: "C07", Bubble: true, Run: runC07,
 		Runs:   map[string]int{"quick": 20000, "thorough": 600000},
-		Rule:   "a case is one run of the full server (Start, accept loop, connection goroutines) with 1..3 offender connections (boundary-argument commands on a small key pool, ill-formed and unknown commands, odd/null/nested arrays, malformed frames, many-wildcard patterns against a long almost-matching key; ended by idle/half-close/close/reset at a drawn byte), one lock-step witness with exact expected replies and one late-comer, under a seeded interleaving of all deliveries and server goroutines; handler = bundled example store, reference store, or a non-panicking but misbehaving store (nil results, errors, oddly typed replies for the offenders' keys); distinct = distinct event-log hashes; every run has an offender, so all are non-trivial",
+		Rule:   "a case is one run of the full server (Start, accept loop, connection goroutines) with 1..3 offender connections (in a quarter of the runs the application supplies a TLS configuration that does not require client certificates and offenders may use the TLS port with or without one; boundary-argument commands on a small key pool, ill-formed and unknown commands, odd/null/nested arrays, malformed frames, many-wildcard patterns against a long almost-matching key; ended by idle/half-close/close/reset at a drawn byte), one lock-step witness with exact expected replies and one late-comer, under a seeded interleaving of all deliveries and server goroutines; handler = bundled example store, reference store, or a non-panicking but misbehaving store (nil results, errors, oddly typed replies for the offenders' keys); distinct = distinct event-log hashes; every run has an offender, so all are non-trivial",
 		Real:   []string{"redis.Server Start/accept loop/connection goroutines/dispatch/executors/parser", "examples/go-redisd/server store (half of the runs)"},
 		Stub:   []string{"network: simulated listener and connections", "handler (other half): reference store", "process isolation: one worker process per shard, a worker death is attributed to its run and replayed alone"},
 		Assume: []string{"the witness uses its own keys and database so that its expected replies do not depend on the offenders"},
